@@ -27,7 +27,7 @@ def stateStr (s : St) : String :=
 
 def cbOf (w : String) : Option Cb :=
   match w with
-  | "c" => some .continue_ | "s" => some .stop | "p" => some .panic
+  | "c" => some .continue_ | "s" => some .stop | "p" => some .panic | "G" => some .take
   | _ => if w.startsWith "P" then ((w.drop 1).toString.toNat?).map Cb.put else none
 
 def endStr : RangeEnd → String
@@ -145,7 +145,7 @@ def step (x : S) (w : List String) : Option (S × String × List String) :=
     let c ← c.toNat?
     let cbs ← cbs.mapM cbOf
     let (s', vis, e) := bufferRange c (cbs ++ [.stop]) s
-    fin { x with st := s' } s!"vis={fmtNats vis} end={endStr e}" (["brange_" ++ endStr e] ++ (if cbs.any (fun c => match c with | .put _ => true | _ => false) then ["brange_put_in_callback"] else []))
+    fin { x with st := s' } s!"vis={fmtNats vis} end={endStr e}" (["brange_" ++ endStr e] ++ (if cbs.any (fun c => match c with | .put _ => true | _ => false) then ["brange_put_in_callback"] else []) ++ (if cbs.any (· == .take) then ["brange_consumer_advanced_in_callback"] else []))
   | ["state"] => some (x, stateStr s, [])
   | _ => none
 
